@@ -237,9 +237,10 @@ def work(task):
                         seen.add(tuple(original.index(x) if False else [i for i, y in enumerate(original) if y is x][0] for x in v))
 
             def run(src):
-                original = [api.Decimal(x) if isinstance(x, int) else x for x in items]
-                # distinct objects even for equal values, so identity tells elements apart
-                original = [api.Decimal(str(x)) if isinstance(x, decimal.Decimal) else ''.join([str(x), '!']) for x in original]
+                original = [api.Decimal(x) if isinstance(x, int) and not isinstance(x, bool) else x for x in items]
+                # distinct objects even for equal values, so identity tells elements apart (None / bools are singletons)
+                original = [api.Decimal(str(x)) if isinstance(x, decimal.Decimal) else (x if x is None or isinstance(x, bool)
+                            else ''.join([str(x), '!'])) for x in original]
                 lst = list(original)
                 on_exec.cur = (lst, original)
                 return with_source(src, text, {'l': lst})
@@ -271,6 +272,9 @@ def main(tier, seed, t0):
     for n in range(0, b['MAXLIST'] + 1):
         tasks.append(('list', elems[:n], b))
     tasks.append(('list', ['x', 'x', 'y'][:b['MAXLIST']], b))
+    tasks.append(('list', [None], b))
+    tasks.append(('list', [1, None, 'x'][:b['MAXLIST']], b))
+    tasks.append(('list', [0, '', False][:b['MAXLIST']], b))
     tasks = runner.rotate(tasks, seed)
     total = runner.run_tasks(work, tasks)
     total.sample({'program': 'rand(a, b)', 'a': -3, 'b': 4, 'answer_script_example': [7, 7, 3]})
